@@ -348,6 +348,9 @@ def math (name : String) (a : JNum) : Option JNum :=
   | "floor_i64" => some (match a.repr with | .int i => ⟨.int i, none⟩ | .flt f => ofI (floatAsI64 f.floor))
   | "ceil_i64" => some (match a.repr with | .int i => ⟨.int i, none⟩ | .flt f => ofI (floatAsI64 f.ceil))
   | "round_i64" => some (match a.repr with | .int i => ⟨.int i, none⟩ | .flt f => ofI (floatAsI64 f.round))
+  | "length" => some (match a.repr with
+      | .int i => if inI64 (-i) || i ≥ 0 then ⟨.int (if i < 0 then -i else i), none⟩ else ⟨.flt (intToFloat i).abs, none⟩
+      | .flt f => ⟨.flt f.abs, none⟩)
   | "sqrt" => some ⟨.flt a.toF.sqrt, none⟩
   | "fabs" => some ⟨.flt a.toF.abs, none⟩
   | _ => none
